@@ -628,6 +628,7 @@ func runSelftest(prop string) map[string]any {
 		p := filepath.Join(repoDir, parts[0])
 		src, err := os.ReadFile(p)
 		if err != nil || !strings.Contains(string(src), parts[1]) {
+			fmt.Fprintf(os.Stderr, "selftest %s: canary for %s skipped (its text is no longer in the source)\n", prop, parts[0])
 			continue // source changed: canary not applicable
 		}
 		total++
